@@ -1,4 +1,5 @@
 import NjectProofs.ReorderDeps
+import NjectProofs.ReorderGraph
 import NjectProps.C17b
 /-
   C17, about the algorithm (reorder.go as transcribed in `Nject/ReorderAlg.lean`): a provider that
@@ -104,6 +105,41 @@ theorem C17_reordered_provider_follows_its_constraints (ti : TyInfo) (funcs : Li
     · rcases p2 (by rw [hn]; exact hjn) with hin | ⟨a, p, ha, hy, hrl⟩
       · exact Or.inl hin
       · exact Or.inr ⟨a, p, ha, up a p ha hy, hrl⟩
+
+/-- **C17 (algorithm), in terms of the provider list**: a Reorder'd provider that is placed stands after a
+    source of each of its inputs: for every input type that the matching table resolves to `t`, some provider
+    that OUTPUTS `t` stands earlier in the new order -- or the init function outputs `t`. -/
+theorem C17_reordered_provider_follows_its_sources (ti : TyInfo) (funcs : List CP) (hasInit : Bool) (r : ReorderOut)
+    (h : reorderIdx ti funcs hasInit = some r) (b i : Nat) (hb : r.order[b]? = some i) (hgu : i ∉ r.gaveUp)
+    (hr : ((clearReorder funcs).getD i default).reorder = true) (hi : i < funcs.length)
+    (tRaw : Ty) (ht : tRaw ∈ noNoType ((clearReorder funcs).getD i default).inp) (t : Ty) (deps : List Nat)
+    (hm : bestMatch ti (fun p => ((clearReorder funcs).getD p default).loose) (availDown (clearReorder funcs) hasInit) tRaw = some (t, deps)) :
+    (hasInit = true ∧ ∃ f, (clearReorder funcs).find? (·.cls == .initFunc) = some f ∧ t ∈ noNoType f.out) ∨
+    ∃ (a p : Nat), a < b ∧ r.order[a]? = some p ∧ t ∈ noNoType ((clearReorder funcs).getD p default).out := by
+  have hlen : (clearReorder funcs).length = funcs.length := by simp [clearReorder]
+  have ⟨ok, has⟩ := buildGraph_inputs ti (clearReorder funcs) hasInit
+  have ⟨num, hl, hs⟩ := has i (by rw [hlen]; exact hi) tRaw ht t deps hm
+  have hmem := lookupTy_mem hl
+  have hsok := reorderStatic_ok ti (clearReorder funcs) hasInit
+  have hgt : funcs.length < num := by
+    have := hsok.downGt t num (by simpa [topoStatic] using hl)
+    simpa [topoStatic, hlen] using this
+  have same : ∀ t', (buildGraph ti (clearReorder funcs) hasInit).downTypes.lookup t' = some num → t' = t := by
+    intro t' hl'
+    have := ok.dinj _ (lookupTy_mem hl') _ hmem rfl
+    exact congrArg Prod.fst this
+  rcases (C17_reordered_provider_follows_its_constraints ti funcs hasInit r h b i hb hgu hr num hs).2 hgt with hin | ⟨a, p, ha, hp, hrel⟩
+  · obtain ⟨hI, f, hf, t', ht', hl'⟩ := hin
+    left
+    exact ⟨hI, f, hf, by rw [← same t' hl']; exact ht'⟩
+  · right
+    refine ⟨a, p, ha, hp, ?_⟩
+    rcases hrel with ⟨t', ht', hl'⟩ | ⟨t', _, hl'⟩
+    · have hl'' : (buildGraph ti (clearReorder funcs) hasInit).downTypes.lookup t' = some num := by simpa [topoStatic] using hl'
+      rw [← same t' hl'']
+      simpa [topoStatic] using ht'
+    · have hu : (t', num) ∈ (buildGraph ti (clearReorder funcs) hasInit).upTypes := lookupTy_mem (by simpa [topoStatic] using hl')
+      exact (ok.dudisj _ hmem _ hu rfl).elim
 
 /-- the hypotheses are satisfiable: a Reorder'd injector listed before the producer of its input is moved
     behind it; `(1, 5)` is its strong constraint on the pseudo node of the input type -/
